@@ -819,6 +819,87 @@ fn run_dearmor_consumers(ctx: &mut Ctx, key: &SignedSecretKey) {
     }
 }
 
+/// `util::fill_buffer` over sources whose reads are interrupted / fail (model op `fill_buffer_intr`)
+fn run_fill_buffer_intr(ctx: &mut Ctx) {
+    struct EvSrc {
+        evs: std::collections::VecDeque<(u8, Vec<u8>)>,
+    }
+    impl Read for EvSrc {
+        fn read(&mut self, buf: &mut [u8]) -> std::io::Result<usize> {
+            match self.evs.pop_front() {
+                None => Ok(0),
+                Some((1, _)) => Err(std::io::Error::other("injected source fault")),
+                Some((2, _)) => Err(std::io::Error::new(std::io::ErrorKind::Interrupted, "interrupted")),
+                Some((_, c)) => {
+                    let n = c.len().min(buf.len());
+                    buf[..n].copy_from_slice(&c[..n]);
+                    if n < c.len() {
+                        self.evs.push_front((0, c[n..].to_vec()));
+                    }
+                    Ok(n)
+                }
+            }
+        }
+    }
+    let n_cases = ctx.pick(600, 8000);
+    for _ in 0..n_cases {
+        let k = ctx.rng.gen_range(0..6usize);
+        let mut evs: Vec<u64> = Vec::new();
+        for _ in 0..k {
+            evs.push(match ctx.rng.gen_range(0..10) {
+                0 => 999_999_999,
+                1..=3 => 888_888_888,
+                _ => ctx.rng.gen_range(0..9u64),
+            });
+        }
+        // (a zero-length window is not asked for by any caller; the helper would still issue one read)
+        let n = ctx.rng.gen_range(1..12usize);
+        let mut next = 0usize;
+        let mut src = std::collections::VecDeque::new();
+        for &e in &evs {
+            match e {
+                999_999_999 => src.push_back((1u8, vec![])),
+                888_888_888 => src.push_back((2u8, vec![])),
+                e => {
+                    src.push_back((0u8, (0..e as usize).map(|i| ((next + i) % 251) as u8).collect()));
+                    next += e as usize;
+                }
+            }
+        }
+        let r = guarded(|| {
+            let mut buf = vec![0u8; n];
+            pgp::verif_hooks::fill_buffer(EvSrc { evs: src.clone() }, &mut buf, None).map(|got| buf[..got].to_vec())
+        });
+        let ans = match &r {
+            Ok(Ok(b)) => format!("ok:{}", hx(b)),
+            Ok(Err(_)) => "err".to_string(),
+            Err(_) => "panic".to_string(),
+        };
+        let evs_arg = if evs.is_empty() { "-".to_string() } else { evs.iter().map(|e| e.to_string()).collect::<Vec<_>>().join(",") };
+        ctx.case(format!("fill_buffer_intr n={n} evs={evs_arg}"), ans.clone());
+        // without the model: the octets are those of the data events in order, up to n or the first fatal error
+        let mut want: Vec<u8> = Vec::new();
+        let mut fatal = false;
+        let mut next = 0usize;
+        for &e in &evs {
+            if want.len() >= n { break; }
+            match e {
+                999_999_999 => { fatal = true; break; }
+                888_888_888 => {}
+                e => {
+                    if e == 0 { break; } // a read of 0 octets is the end of the source
+                    want.extend((0..e as usize).map(|i| ((next + i) % 251) as u8));
+                    next += e as usize;
+                }
+            }
+        }
+        want.truncate(n);
+        let ok = if fatal && want.len() < n { ans == "err" } else { ans == format!("ok:{}", hx(&want)) };
+        ctx.oracle("source_fault_surfaces", "util::fill_buffer over interrupted / failing reads", &format!("n={n} evs={evs_arg}"), ok || n == 0, &ans);
+        ctx.stat("fill_buffer_intr");
+    }
+}
+
 /// the reader below a `PacketParser`: delivers `pre` (in pieces), then ends or fails
 struct PreThenTail<'a> {
     pre: &'a [u8],
@@ -1013,6 +1094,7 @@ pub fn run(ctx: &mut Ctx) {
     run_fault_kinds(ctx, &key);
     run_dearmor_consumers(ctx, &key);
     run_next_hdr(ctx);
+    run_fill_buffer_intr(ctx);
     // thorough: repeated with fresh payloads, schedules and fault positions
     let rounds = ctx.pick(1u64, 160u64);
     let base = ctx.seed;
